@@ -23,7 +23,7 @@ SCHEMAS = ['public', 'public', 'public', 'sales', 'hr']
 ACTIONS = [None, None, 'cascade', 'restrict', 'set null', 'set default', 'no action']
 INDEX_TYPES = [None, None, 'btree', 'hash', 'gin', 'gist', 'brin', 'spgist']
 NOTES = ['', '', 'a note', "it's quoted", 'two\nlines', 'with "dq"', 'back\\slash', "triple ''' q", 'é日本',
-         'line1\n  indented\nline3', 'cont \\\nline']
+         'line1\n  indented\nline3', 'cont \\\nline', 'para one\n\npara two', 'a\n\n  b\n\n\nc']
 COMMENTS = [None, None, None, 'a comment', 'two\nline comment', "c with 'q'", 'c {brace}', '-- sql', '*/ x']
 COLORS = [None, None, '#fff', '#A1B2C3', '#000000']
 
